@@ -151,6 +151,59 @@ CHECKS.update({
         note=TB + 'Python\'s reflected-operand dispatch and clone()\'s allocation are run-time facts observed by the harness.'),
 })
 
+CHECKS.update({
+    'C07': dict(
+        cat='proof', ref='5/C07',
+        technique='Lean 4 theorems over an explicit object store (clone allocates, labelling mutates one object): frame, '
+                  'result = pure function, history independence by induction over call sequences + differential '
+                  'histories with deep snapshots',
+        text='Theorems PMC.C07.*: in the store-passing model of the three entry points every pre-existing object (in '
+             'particular the caller\'s structure) is unchanged after a call (all writes go to the identity allocated by '
+             'clone), the answer equals the pure function of the argument\'s value, and for every finite call sequence '
+             'the n-th answer is the pure answer on the ORIGINAL values (history). Tie: random interleavings of '
+             'modelcheck calls (3 logics, text/object, with and without F) over pools of live structures and formula '
+             'objects with a deep snapshot (content and id of every container, formula node ids) around every call; '
+             'repeated calls must agree with the first answer and with the model.',
+        note=TB + 'The store model represents the label-mutation discipline (clone-before-label) of CTLS.modelcheck; the '
+             'fairness branches are covered by the snapshots only. Formula objects are immutable values in the model.'),
+    'C09': dict(
+        cat='proof', ref='5/C09',
+        technique='Lean 4 theorems decode_print / print_injective / printCTL_injective (verified decoder of the printed '
+                  'language) + differential: printer char-by-char, real parser round trip, table-driven Lean parser',
+        text='Theorems PMC.C09.*: the printed text determines the tree (decoder round trip) and printing is injective in '
+             'the CTL* notation and in CTL\'s own notation, over identifier non-reserved atoms and arity>=2. Tie: '
+             'str(f) vs the model\'s printer exactly; Parser()(str(f)) has the tree of f and only nodes of that logic; '
+             'the table-driven Lean parser (tables regenerated from the live Lark objects) on str(f) returns f — every '
+             'formula of the small scope, random to depth 5 incl. atoms named AX, Xp, nota, EG.',
+        note=TB + 'That Lark\'s LALR parser decodes printed text like the verified decoder is validated (exhaustive small '
+             'scope), not proved.'),
+    'C10': dict(
+        cat='translation_validation', ref='5/C10',
+        technique='table-driven Lean model of the four Lark parsers (contextual lexer + LR driver + callbacks) whose '
+                  'tables are regenerated from the live parser objects on every run; differential validation against '
+                  'the real parsers + direct oracle on the implementation',
+        text='The lexer/LR/callback model interprets the tables extracted from the live Lark objects and must agree '
+             'with the real parsers in verdict, tree, exception class and position on: a hand-written corpus, every '
+             'string over {",\\,a,newline} up to length 6, special characters in 8 contexts, printed formulas, random '
+             'spellings, token and character mutations, random token sequences and noise, all fed to all four parsers. '
+             'Independently the implementation\'s outcome is checked against the property itself (only the two '
+             'ParserError classes, 0<=pos<=len, result in the logic and of the logic\'s module).',
+        note=TB + 'Lark\'s table construction is in the trusted base; theorems about the table-driven model (error positions, '
+             'acceptance follows a derivation, grammar_ok => result in the logic) are added when proved.'),
+    'C19': dict(
+        cat='proof', ref='5/C19',
+        technique='Lean 4 theorems ctl_ok / ltl_ok / ctls_ok (always a set of K\'s states, no hypothesis on atoms or '
+                  'labels, polymorphic in the state type) and verification conditions for every partial operation + '
+                  'differential runs on heterogeneous states/labels with result mutation',
+        text='Theorems PMC.C19.*: for every WF structure and formula of the logic each model returns .ok R with R within '
+             'the states (CTL* without the naming hypothesis); get_reachable_set_from cannot raise in _checkEU/_checkEG, '
+             'every SCC is non-empty, every state has a tableau atom. Tie: structures with string/tuple/float/frozenset/'
+             'mixed states, labels with ints, tuples, None, operator-looking and bracketed names, atoms absent from K: '
+             'result is a set of states equal to the model\'s, is mutated, and the call repeated.',
+        note=TB + 'RecursionError on very deep formulas is a run-time resource bound outside the model; freshness of the '
+             'returned set is observed, not modelled.'),
+})
+
 NOT_YET = {
     'C07': 'check under construction in this session',
     'C08': 'check under construction in this session (class-table translator)',
@@ -188,7 +241,7 @@ def main():
             na.append({'property_id': pid, 'reason': 'check under construction in this session'})
     m = {
         'version': 1,
-        'setup_cmd': 'cd lean && lake build',
+        'setup_cmd': '/venv/bin/python harness/setup.py',
         'hooks': {
             'guard': 'PYMODELCHECKING_VERIF',
             'enable': 'no source hooks: everything is observed from outside (return values, exceptions, snapshots, id(), '
